@@ -274,6 +274,10 @@ def substantive(e):
     return True
 
 
+def _deep_tuple(v):
+    return tuple(_deep_tuple(y) for y in v) if isinstance(v, (list, tuple)) else v
+
+
 def run_async(case, max_steps=400):
     prog = case['prog']
     ar = AResult()
@@ -322,7 +326,7 @@ def run_async(case, max_steps=400):
                         continue
                     i = counter['i']
                     counter['i'] += 1
-                    x = tuple(v) if isinstance(v, list) else v
+                    x = _deep_tuple(v)
                     md, ref = mk_md(log, i, nmd, env.io)
                     ar.mds[i] = md
                     if ref is not None:
